@@ -34,6 +34,11 @@ type Mismatch struct {
 	Impl  string `json:"impl"`
 	Model string `json:"model"`
 	What  string `json:"what"`
+	// how to regenerate and re-execute the case on the implementation (engine stream)
+	Stream  string `json:"stream,omitempty"`
+	Variant string `json:"variant,omitempty"`
+	Seed    uint64 `json:"seed,omitempty"`
+	Index   int    `json:"index"`
 }
 
 func newSummary(stream string, seed uint64) *Summary {
@@ -164,5 +169,23 @@ func doReplay(path, driver string) int {
 		return 2
 	}
 	fmt.Printf("case:  %s\nimpl (recorded): %v\nmodel (now):     %s\n", c, m["impl"], out[0])
+	// engine-stream cases are regenerated from (seed, variant, index) and re-executed on the implementation
+	if st, _ := m["stream"].(string); st == "engine" {
+		seed, _ := m["seed"].(float64)
+		idx, _ := m["index"].(float64)
+		variant, _ := m["variant"].(string)
+		line, impl := regenerateEngineCase(uint64(seed), variant, int(idx))
+		fmt.Printf("regenerated case (seed %d, variant %q, index %d): identical to the recorded line: %v\nimpl (now):      %s\n", uint64(seed), variant, int(idx), line == c, impl)
+		out2, err := runDriver(driver, []string{line})
+		if err == nil {
+			parts := strings.SplitN(out2[0], "\t", 2)
+			fmt.Printf("spec (now):      %s\n", parts[len(parts)-1])
+			if parts[len(parts)-1] != impl {
+				fmt.Println("RESULT: implementation and reference semantics still differ on this case")
+				return 1
+			}
+			fmt.Println("RESULT: implementation and reference semantics agree on this case now")
+		}
+	}
 	return 0
 }
